@@ -114,7 +114,8 @@ def func_scen(prop, tier, rng):
             for _ in range(rng.randint(1, 3)):
                 a = rng.choice(hp[:-1]); b = rng.choice([h for h in hp if h > a])
                 ivs_.append([a, b])
-            yield {'kind': kind, 'func': rfunc(kind), 'intervals': ivs_, 'times': rng.sample(hp, 5) + [Fr(0), Fr(T)]}
+            near = [Fr(rng.randint(1, T - 1)) + sg * Fr(1, 2 ** 20) for sg in (1, -1)] + [Fr(T) - Fr(1, 2 ** 20), Fr(1, 2 ** 20)]
+            yield {'kind': kind, 'func': rfunc(kind), 'intervals': ivs_, 'times': rng.sample(hp, 5) + [Fr(0), Fr(T)] + near}
         else:
             k = rng.randint(1, 4)
             ivs_ = []
@@ -279,7 +280,9 @@ def scenarios(prop, tier, rng):
             if prop == 'C17':
                 sc['thr'] = rng.choice([Fr(k, N - 1) for k in range(N)] + [Fr(1, 4), Fr(1, 2), Fr(3, 4)])
                 sc['thr2'] = min(Fr(1), sc['thr'] + rng.choice([0, Fr(1, 4), Fr(1, 2)]))
-            if prop == 'C14' or (prop == 'C04' and N > 2 and rng.random() < 0.5):
+            if prop == 'C04' and rng.random() < 0.3:
+                sc['kw']['mrts'] = 'auto'
+            if prop == 'C14' or (prop in ('C04', 'C05') and N > 2 and rng.random() < 0.5):
                 k = rng.randint(2, N)
                 sc['indices'] = rng.sample(range(N), k)
             if prop == 'C06':
